@@ -69,7 +69,10 @@ def main():
     thms = []
     for f in mod.PROP_FILES:
         thms += [(f, *t) for t in common.theorems_in(f)]
-    ok_build, log = common.lake_build(mod.LEAN_TARGETS + ["N2k.Driver.Core"])
+    ok_driver, dlog = common.lake_build(["N2k.Driver.Core"])
+    ok_build, log = common.lake_build(mod.LEAN_TARGETS)
+    if not ok_driver:
+        ok_build, log = False, dlog + log
     broken = []
     audit = {}
     if not ok_build:
@@ -98,7 +101,7 @@ def main():
     suites = []
     corr_broken = []
     ctx = {"tier": tier, "seed": seed, "repo": common.REPO}
-    if ok_build:
+    if ok_driver:
         try:
             suites = mod.correspondence(ctx)
         except Exception as e:
